@@ -406,6 +406,18 @@ impl<'a> Tr<'a> {
             Ty::Int(t) => self.int_method(&name, recv, t, m, &args, env, hint, at),
             Ty::Adt(n) => {
                 let fs = self.find_fns(Some(&n), &name);
+                // a value of an instantiated type parameter: only the methods of the parameter's trait bounds
+                let fs: Vec<FnInfo> = match self.inst_traits.get(&n) {
+                    Some(bounds) => fs.into_iter().filter(|f| f.trait_name.as_deref().map(|t| bounds.contains(t.split('<').next().unwrap())).unwrap_or(false)).collect(),
+                    None => fs,
+                };
+                let via_bound = self.inst_traits.contains_key(&n);
+                // a concrete receiver: Rust prefers the inherent method over trait methods of the same name
+                let fs: Vec<FnInfo> = if !via_bound && fs.len() > 1 && fs.iter().filter(|f| f.trait_name.is_none()).count() == 1 {
+                    fs.into_iter().filter(|f| f.trait_name.is_none()).collect()
+                } else {
+                    fs
+                };
                 let fs: Vec<FnInfo> = if fs.len() > 1 {
                     let a0 = if args.is_empty() { None } else { self.pure(args[0], env, None).ok() };
                     fs.into_iter()
@@ -421,7 +433,9 @@ impl<'a> Tr<'a> {
                     if fs[0].self_kind == SelfKind::None {
                         return Err(unsupported(at, "method call of an associated function without self"));
                     }
-                    self.check_not_shadowed(&fs[0], at)?;
+                    if !via_bound {
+                        self.check_not_shadowed(&fs[0], at)?;
+                    }
                     return self.apply_fn(&fs[0], &[], Some(&recv), &args, env, at);
                 }
                 if name == "clone" && args.is_empty() {
